@@ -147,6 +147,13 @@ class Run:
         return 'new'
 
     # ---- verdict --------------------------------------------------------------------------------------------------
+    def unanchored(self, group, reason):
+        """a contract group whose obligations could not be generated from this tree (function / region / table not found in the addressed shape)"""
+        if not hasattr(self, 'unanch'):
+            self.unanch = []
+        self.unanch.append({'contract': group, 'reason': str(reason)[:300]})
+        print(f'UNANCHORED property={self.pid} contract={group} reason={str(reason)[:200]}', flush=True)
+
     def finish(self, rule='', explanation='', checker_cmd='', trusted_base=(), extra=None, crashed=None):
         n_known = sum(1 for o in self.obligs if o[2] == 'failed-known')
         n_ob = len(self.obligs) - n_known
@@ -166,6 +173,9 @@ class Run:
             'known_findings_hit': [k['key'] for k in self.known_hits],
             'obligations_failed_on_known_findings': n_known,
         }
+        unanch = getattr(self, 'unanch', [])
+        if unanch:
+            cov['obligations_not_generated'] = unanch
         if extra:
             cov.update(extra)
         if self.notes:
@@ -190,8 +200,13 @@ class Run:
         if n_ob == 0 and self.cases == 0:
             print(f'CHECKER-CRASH property={self.pid}: zero obligations and zero cases (vacuous run)', flush=True)
             return 3
+        if unanch and self.cases == 0:
+            # nothing else exercised the clause the missing contract was about: undecided, never "held"
+            print(f'UNDECIDED property={self.pid}: {len(unanch)} contract group(s) could not be anchored in this tree and no bounded stand-in ran', flush=True)
+            return 2
         print(f'OK property={self.pid} tier={self.tier} obligations={n_dis}/{n_ob} cases={self.cases} '
-              f'nontrivial={len(self.nontrivial)} known={len(self.known_hits)} wall={ev["wall_s"]}s', flush=True)
+              f'nontrivial={len(self.nontrivial)} known={len(self.known_hits)} wall={ev["wall_s"]}s'
+              + (f' unanchored-contract-groups={len(unanch)} (bounded stand-in ran)' if unanch else ''), flush=True)
         return 0
 
 
